@@ -23,3 +23,25 @@ PROPS["C19"] = dict(
         dict(name="fuzz", fuzz="FuzzBufferDifferential", fuzztime=120),
     ],
 )
+
+PROPS["C20"] = dict(
+    pkg="c20", level="exploration",
+    technique="property-based round-trip and differential testing (rapid) against time.ParseDuration + native fuzzing",
+    claim=("Round trip format->parse over generated int64 durations (uniform, composed boundary values, extremes) in both styles, and "
+           "differential agreement of the parser with time.ParseDuration over generated/mutated duration strings; strings with the "
+           "day unit are compared with the standard parser on the equal hours form. Exploration: sampled values only."),
+    note="time.ParseDuration of the building toolchain is the reference; fractional day terms are compared within 1ns per term (float rounding) and accept/reject is not asserted within that distance of the int64 limits.",
+    rule=("(a) rapid draws int64 durations (uniform; sign x days{0,1,2,99,99999,106750,106751} x h x m x s x ms x us x ns; unit boundaries +-3; "
+          "MinInt64/MaxInt64) and a style; non-trivial: |d| >= 24h or a sub-second part next to whole seconds; distinct = (style, value). "
+          "(b) rapid draws strings: grammar of 1..5 number+unit terms (numbers incl. 17-25 digit overflow cases, units incl. d and junk), "
+          "1-2 byte edits of those, random strings over the duration alphabet, arbitrary strings, and formatter output; non-trivial: accepted "
+          "by at least one of the two parsers; distinct = the string."),
+    assumptions=["time.ParseDuration (Go toolchain building the harness) is the reference parser",
+                 "a day term equals 24 hours; fractional day terms may differ by 1ns from the hours form"],
+    stages=[
+        dict(name="format", run="^TestFormatRoundTrip$", quick=150000, thorough=8000000, shards=8, timeout_quick=600, timeout_thorough=3000),
+        dict(name="parse", run="^TestParseAgainstStdlib$", quick=150000, thorough=8000000, shards=8, timeout_quick=600, timeout_thorough=3000),
+        dict(name="fuzzparse", fuzz="FuzzParseDuration", fuzztime=120),
+        dict(name="fuzzformat", fuzz="FuzzFormat", fuzztime=60),
+    ],
+)
